@@ -120,8 +120,8 @@ func runAsync(rt *rapid.T) {
 		a.pattern = append(a.pattern, rapid.SampledFrom(latencyChoices).Draw(rt, "latency"))
 	}
 	var txs [nAlpha][]byte
-	for i := 0; i < nAlpha; i++ {
-		txs[i] = []byte(strings.Repeat(string(rune('A'+i)), c.Lens[i]))
+	for i := 0; i < c.Alpha; i++ {
+		txs[i] = []byte(strings.Repeat(string(rune(letter(i))), c.Lens[i]))
 		a.alpha[string(txs[i])] = i
 		a.tab[i] = genVerdict(rt)
 	}
@@ -169,16 +169,16 @@ func runAsync(rt *rapid.T) {
 	rounds := rapid.IntRange(1, 4).Draw(rt, "rounds")
 	for round := 0; round < rounds; round++ {
 		for k := rapid.IntRange(0, 2).Draw(rt, "verdictChanges"); k > 0; k-- {
-			i := rapid.IntRange(0, nAlpha-1).Draw(rt, "i")
+			i := rapid.IntRange(0, c.Alpha-1).Draw(rt, "i")
 			nv := genVerdict(rt)
 			if inPool(txs[i]) {
 				nv.Gas, nv.Sender = a.tab[i].Gas, a.tab[i].Sender
 			}
 			a.set(i, nv)
-			logf("SetVerdict(%c) = %+v", 'A'+i, nv)
+			logf("SetVerdict(%c) = %+v", letter(i), nv)
 		}
 		// ---- burst
-		burst := rapid.SliceOfN(rapid.IntRange(0, nAlpha-1), 1, 10).Draw(rt, "burst")
+		burst := rapid.SliceOfN(rapid.IntRange(0, c.Alpha-1), 1, 10).Draw(rt, "burst")
 		if len(lastBlock) > 0 && rapid.Bool().Draw(rt, "resubmitCommitted") {
 			burst = append(burst, lastBlock[rapid.IntRange(0, len(lastBlock)-1).Draw(rt, "which")])
 		}
@@ -195,11 +195,11 @@ func runAsync(rt *rapid.T) {
 					_ = s.mp.CheckTx(txs[i], nil, mempool.TxInfo{SenderID: uint16(1 + i%4)})
 					atomic.AddInt32(&returned, 1)
 				}(i)
-				bs.WriteByte(byte('A' + i))
+				bs.WriteByte(letter(i))
 				continue
 			}
 			err := s.mp.CheckTx(txs[i], nil, mempool.TxInfo{SenderID: uint16(1 + i%4)})
-			fmt.Fprintf(&bs, "%c:%s ", 'A'+i, errKind(err))
+			fmt.Fprintf(&bs, "%c:%s ", letter(i), errKind(err))
 			if err == nil {
 				queued = append(queued, i)
 				sent++
@@ -230,7 +230,7 @@ func runAsync(rt *rapid.T) {
 			}
 		}
 		for k := rapid.IntRange(0, 1).Draw(rt, "foreign"); k > 0; k-- {
-			block = append(block, rapid.IntRange(0, nAlpha-1).Draw(rt, "foreignTx"))
+			block = append(block, rapid.IntRange(0, c.Alpha-1).Draw(rt, "foreignTx"))
 		}
 		oks := make([]bool, len(block))
 		btxs := make(types.Txs, len(block))
@@ -240,7 +240,7 @@ func runAsync(rt *rapid.T) {
 			oks[k] = rapid.IntRange(0, 5).Draw(rt, "deliverOK") != 0
 			btxs[k] = txs[i]
 			resps[k] = &abci.ResponseDeliverTx{}
-			cs.WriteByte(byte('A' + i))
+			cs.WriteByte(letter(i))
 			if !oks[k] {
 				resps[k].Code = 5
 				cs.WriteByte('!')
@@ -346,7 +346,7 @@ func runAsync(rt *rapid.T) {
 				when = "the cache (never evicting here) remembers it"
 			}
 			fail("transaction %c was committed in block %d and is in the pool after the commit (pool %q); %s",
-				'A'+i, height, name(pooled(), a.alpha), when)
+				letter(i), height, name(pooled(), a.alpha), when)
 		}
 		// ---- unique, bounded, accounted
 		list := pooled()
@@ -368,7 +368,7 @@ func runAsync(rt *rapid.T) {
 			for _, tx := range list {
 				if v := a.tab[a.alpha[string(tx)]]; v.CodeRe != 0 {
 					fail("after the commit of block %d with recheck on, %c is pooled although the application rejects it on recheck (pool %q)",
-						height, 'A'+a.alpha[string(tx)], name(list, a.alpha))
+						height, letter(a.alpha[string(tx)]), name(list, a.alpha))
 				}
 			}
 		}
@@ -396,7 +396,7 @@ func runAsync(rt *rapid.T) {
 			if ferr := env.cli.FlushSync(); ferr != nil {
 				infra("FlushSync", ferr)
 			}
-			logf("CheckTx(%c) again -> %s", 'A'+i, errKind(err))
+			logf("CheckTx(%c) again -> %s", letter(i), errKind(err))
 			if v1 && lib.IsKnown(idV1Outside) && (err == nil || (!was && inPool(txs[i]))) {
 				// listed finding: an answer that was in flight during the commit landed after Update and made the
 				// cache forget the tx (late rejection / late drop)
@@ -405,10 +405,10 @@ func runAsync(rt *rapid.T) {
 				continue
 			}
 			if err == nil {
-				fail("transaction %c was committed in block %d and is remembered (cache_size=%d), yet CheckTx accepted it for checking", 'A'+i, height, c.CacheSize)
+				fail("transaction %c was committed in block %d and is remembered (cache_size=%d), yet CheckTx accepted it for checking", letter(i), height, c.CacheSize)
 			}
 			if !was && inPool(txs[i]) {
-				fail("transaction %c was committed in block %d, is remembered, and was re-admitted", 'A'+i, height)
+				fail("transaction %c was committed in block %d, is remembered, and was re-admitted", letter(i), height)
 			}
 		}
 	}
